@@ -161,7 +161,11 @@ class WalkerSemantics(object):
                     continue
                 table[key] = ('pyfunc', self._wrap(h))
             disp = self.dispatcher(ev, {}, None, table)
-            env = {'dispatcher': disp}
+            # the environment of the nested functions of walk: its
+            # parameters and every function defined in its body
+            env = {'dispatcher': disp, 'node': None, 'definition': None}
+            for name, fd in self.nested.items():
+                env[name] = ('closure', fd, env, self.walker, None)
             cache = (ev, disp, env, table, handlers)
             self._disp_cache[id(handlers)] = cache
         ev, disp, env, table, _ = cache
